@@ -14,7 +14,7 @@ DEFAULT = dict(
     w_connect=6, w_claim=8, w_allocate=4, w_release=5, w_open=8, w_add=10, w_close=7, w_list=3, w_ping=1,
     w_malformed=3, w_drop=4, w_sweep=2, w_restart=1, w_crash=0, w_fault=0, w_reconnect=4, w_bigjump=1,
     usage=None, blur=None, allow_list=None, int_ids=False, moods=["happy", "lonely", "errory", "scary", "weird", None],
-    p_badcv=0.0, extra_keys=True, quiesce=False, timer=False, welcome=False, start=8000, period=2400, p_fault=0.0,
+    p_badcv=0.0, extra_keys=True, quiesce=False, timer=False, welcome=False, start=8000, period=2400, expiration=5280, p_fault=0.0,
 )
 
 
@@ -42,7 +42,8 @@ class Gen(object):
         if r.random() < 0.6:
             self.t += r.choice([0, 1, 1, 2, 3, 8, 8, 16, 40])
         elif self.p["w_bigjump"] and r.random() < 0.15:
-            self.t += r.choice([60, 300, 600, 659, 660, 661, 900]) * TICKS
+            self.t += r.choice([60 * TICKS, self.p["period"], self.p["expiration"] - self.p["period"], self.p["expiration"] - TICKS,
+                                self.p["expiration"], self.p["expiration"] + TICKS, 900 * TICKS])
         self.fire_due()
         return self.t
 
@@ -247,7 +248,8 @@ class Gen(object):
             return
         self.tick()
         if self.r.random() < 0.5:
-            self.t += self.r.choice([1, 300, 600, 660, 700]) * TICKS
+            self.t += self.r.choice([TICKS, self.p["period"], self.p["expiration"] - 60 * TICKS, self.p["expiration"],
+                                     self.p["expiration"] + 40 * TICKS])
         self.emit({"op": "sweep", "now": self.t, "fault": fault})
 
     def do_restart(self):
@@ -314,7 +316,7 @@ class Gen(object):
         if p["quiesce"]:
             for c in list(self.conns):
                 self.do_drop(c)
-            self.t += (660 + r.choice([0, 1, 300])) * TICKS
+            self.t += p["expiration"] + r.choice([0, 1, 300]) * TICKS
             if p["timer"]:
                 self.t += p["period"]
                 self.fire_due()
